@@ -77,18 +77,23 @@ theorem pjBeginApply_ok (p : PJoin) (x : Rel) (pref : Option Engine) (p' : PJoin
     p'.fixed = p.fixed ∧ p'.fixedIsLhs = p.fixedIsLhs ∧ p'.join.pred = p.join.pred ∧
       e = pref.getD p.fixed.engine ∧
       p'.join.minCols.subset p.fixed.columns = true ∧ p'.join.minCols.subset x.columns = true ∧
-      p'.join.pred.columnsRequired.subset (p.fixed.columns.union x.columns) = true := by
+      p'.join.pred.columnsRequired.subset (p.fixed.columns.union x.columns) = true ∧
+      (p.join.resolved = false →
+        p.join.appliedCommonColumns p.fixed.columns x.columns = .ok p'.join.minCols) := by
   unfold PJoin.beginApply at h
   simp only at h
   have key : ∀ q : PJoin, q.fixed = p.fixed → q.fixedIsLhs = p.fixedIsLhs → q.join.pred = p.join.pred →
       q.join.minCols.subset p.fixed.columns = true →
+      (p.join.resolved = false → p.join.appliedCommonColumns p.fixed.columns x.columns = .ok q.join.minCols) →
       (if !(q.columnsRequired.subset x.columns) then (Except.error Err.column : Except Err (PJoin × Engine))
         else .ok (q, pref.getD q.fixed.engine)) = .ok (p', e) →
       p'.fixed = p.fixed ∧ p'.fixedIsLhs = p.fixedIsLhs ∧ p'.join.pred = p.join.pred ∧
         e = pref.getD p.fixed.engine ∧
         p'.join.minCols.subset p.fixed.columns = true ∧ p'.join.minCols.subset x.columns = true ∧
-        p'.join.pred.columnsRequired.subset (p.fixed.columns.union x.columns) = true := by
-    intro q h1 h2 h3 h4 hq
+        p'.join.pred.columnsRequired.subset (p.fixed.columns.union x.columns) = true ∧
+        (p.join.resolved = false →
+          p.join.appliedCommonColumns p.fixed.columns x.columns = .ok p'.join.minCols) := by
+    intro q h1 h2 h3 h4 h5 hq
     split at hq
     · cases hq
     · rename_i hreq
@@ -97,7 +102,7 @@ theorem pjBeginApply_ok (p : PJoin) (x : Rel) (pref : Option Engine) (p' : PJoin
       subst hq1
       simp only [Bool.not_eq_true, Bool.not_eq_false'] at hreq
       have hreq' := (Cols.subset_iff _ _).mp hreq
-      refine ⟨h1, h2, h3, by rw [← hq2, h1], h4, ?_, ?_⟩
+      refine ⟨h1, h2, h3, by rw [← hq2, h1], h4, ?_, ?_, h5⟩
       · exact (Cols.subset_iff _ _).mpr fun t ht => hreq' t (by
           unfold PJoin.columnsRequired; exact (Cols.mem_union _ _ _).mpr (Or.inr ht))
       · refine (Cols.subset_iff _ _).mpr fun t ht => ?_
@@ -108,15 +113,17 @@ theorem pjBeginApply_ok (p : PJoin) (x : Rel) (pref : Option Engine) (p' : PJoin
           exact (Cols.mem_union _ _ _).mpr (Or.inl ((Cols.mem_diff _ _ _).mpr ⟨ht, by rw [h1]; exact hf⟩))
   by_cases hr : p.join.resolved = true
   · simp only [hr, Bool.not_true, Bool.false_eq_true, if_false] at h
-    exact key p rfl rfl rfl (hfix hr) h
+    exact key p rfl rfl rfl (hfix hr) (fun hf => by rw [hr] at hf; cases hf) h
   · simp only [hr, Bool.not_false, if_true] at h
     cases hc : p.join.appliedCommonColumns p.fixed.columns x.columns with
     | error e' => simp [hc] at h
     | ok common =>
       simp only [hc] at h
       have hcm := (Props.C14.join_common_columns_resolved p.join _ _ common (by simpa using hr) hc).1
-      exact key { p with join := { p.join with minCols := common, maxCols := some common } } rfl rfl rfl
-        ((Cols.subset_iff _ _).mpr fun t ht => (hcm t ht).1) h
+      obtain ⟨k1, k2, k3, k4, k5, k6, k7, k8⟩ :=
+        key { p with join := { p.join with minCols := common, maxCols := some common } } rfl rfl rfl
+          ((Cols.subset_iff _ _).mpr fun t ht => (hcm t ht).1) (fun _ => hc) h
+      exact ⟨k1, k2, k3, k4, k5, k6, k7, fun hf => hc.symm.trans (k8 hf)⟩
 
 /-- **`Join.partial(fixed).apply(target)` inside one SQL engine** (no preferred engine given):
 the result is a coherent Select with exactly the rows of the join of the two operands on the
@@ -128,7 +135,8 @@ theorem applyOp_pj_sound (σ : Leaves) (st : Store) (fuel : Nat) (p : PJoin) (x 
     ∃ common T, res = .new T ∧ Good σ T ∧ SelOK σ T ∧
       sem σ T = joinRows common p.join.pred (sem σ (p.lhs x)) (sem σ (p.rhs x)) ∧
       (∀ c, c ∈ T.columns ↔ c ∈ (p.lhs x).columns.union (p.rhs x).columns) ∧ T.engine = x.engine ∧
-      common.subset p.fixed.columns = true ∧ common.subset x.columns = true := by
+      common.subset p.fixed.columns = true ∧ common.subset x.columns = true ∧
+      (p.join.resolved = false → p.join.appliedCommonColumns p.fixed.columns x.columns = .ok common) := by
   cases fuel with
   | zero => rw [applyOp] at h; cases h
   | succ fuel =>
@@ -138,7 +146,7 @@ theorem applyOp_pj_sound (σ : Leaves) (st : Store) (fuel : Nat) (p : PJoin) (x 
     | error e => simp [hb] at h
     | ok v =>
       obtain ⟨p', e⟩ := v
-      obtain ⟨f1, f2, f3, f4, f5, f6, f7⟩ := pjBeginApply_ok p x o.pref p' e hfix hb
+      obtain ⟨f1, f2, f3, f4, f5, f6, f7, f8⟩ := pjBeginApply_ok p x o.pref p' e hfix hb
       have he : e = x.engine := by rw [f4, hpref]; exact heng
       subst he
       simp only [hb, bne_self_eq_false, Bool.false_eq_true, if_false, Bool.not_false, if_true, Res.get] at h
@@ -168,7 +176,7 @@ theorem applyOp_pj_sound (σ : Leaves) (st : Store) (fuel : Nat) (p : PJoin) (x 
         subst hT
         simp only [h1] at h
         injection h with h
-        refine ⟨p'.join.minCols, T, h.symm, gT, okT, ?_, ?_, ?_, f5, f6⟩
+        refine ⟨p'.join.minCols, T, h.symm, gT, okT, ?_, ?_, ?_, f5, f6, f8⟩
         · rw [semT, hl, hr, f3]
         · intro c; rw [colT c, hl, hr]
         · rw [engT, hl]; unfold PJoin.lhs; split
